@@ -1686,8 +1686,12 @@ impl Node {
     }
 
     /// Return the remaining time to live.
+    ///
+    /// This is zero for a node that has expired. A node can expire between
+    /// the moment it is created or found in the cache and the moment it is
+    /// used, for example when the DNSKEY RRset has a TTL of zero.
     pub fn ttl(&self) -> Duration {
-        self.valid_for - self.created_at.elapsed()
+        self.valid_for.saturating_sub(self.created_at.elapsed())
     }
 }
 
